@@ -683,15 +683,21 @@ def mon_C15(t):
         for e in t.ev:
             if e[0] == 3 and e[1] == 10 and e[4] == 0:
                 p0_final[e[3]] = e[7]
+        # orders accepted during step 0 were clipped against the then-current (still moving) time-0 price; a market where such
+        # an order was accepted outside the final band is left out (the property speaks of the band around the time-0 price)
+        legacy = set()
+        for x in t.ev:
+            if x[0] == 6 and x[1] == 1 and x[4] == 0 and x[3] in p0_final and x[7] is not None:
+                p0 = Fraction(p0_final[x[3]])
+                tick = Fraction(t.markets[x[3]]["tick"])
+                if not (p0 * (1 - rate) - tick <= Fraction(x[7]) <= p0 * (1 + rate) + tick):
+                    legacy.add(x[3])
         for k, e in enumerate(t.ev):
-            if e[0] == 6 and e[1] == 3 and e[2] in targets and e[2] not in oms_markets and e[3] >= 1 and e[2] in p0_final:
+            if e[0] == 6 and e[1] == 3 and e[2] in targets and e[2] not in oms_markets and e[2] not in legacy and e[3] >= 1 and e[2] in p0_final:
                 p0 = Fraction(p0_final[e[2]])
                 tick = Fraction(t.markets[e[2]]["tick"])
-                # orders accepted during step 0 were clipped against the then-current time-0 price: widen by that drift
                 if not (min(p0 * (1 - rate), p0 * (1 + rate)) - tick <= Fraction(e[8]) <= max(p0 * (1 - rate), p0 * (1 + rate)) + tick):
-                    placed0 = any(x[0] == 6 and x[1] == 1 and x[3] == e[2] and x[4] == 0 and x[2] in (e[6], e[7]) for x in t.ev)
-                    if not placed0:
-                        out.append(V("trade-within-band-widened-by-one-tick", k, market=e[2], price=e[8], p0=p0, rate=rate))
+                    out.append(V("trade-within-band-widened-by-one-tick", k, market=e[2], price=e[8], p0=p0, rate=rate))
     if ab:
         out.append(ab)
     return out[:20]
